@@ -4,6 +4,7 @@ import mon_rns
 import mon_notif
 import mon_mint
 import mon_filetree
+import mon_genesis
 
 BASE_TRUST = [
     "Lean 4.33 kernel; axioms limited to propext, Classical.choice, Quot.sound (audited per theorem with #print axioms)",
@@ -50,7 +51,20 @@ def ft_runs(tier, seed):
 FT_TRUST = BASE_TRUST + ["SHA-256 is re-implemented in Lean for execution only (Canine/Crypto/Sha256.lean); every theorem takes the hash as an arbitrary function",
                          "encoding/json: access lists are compared as decoded map[string]string (decoded by the harness with the chain's own json.Unmarshal)"]
 
+def genesis_runs(tier, seed):
+    profs = ["storage", "forms", "rns", "notif", "filetree"]
+    if tier == "quick":
+        return [{"profile": p, "args": [p, "-seed", str(seed * 10 + k), "-hist", "2", "-steps", "250", "-genesis"]} for k, p in enumerate(profs)]
+    return [{"profile": p, "args": [p, "-seed", str(seed * 100 + k * 7 + j), "-hist", "4", "-steps", "400", "-genesis"]} for k, p in enumerate(profs) for j in range(3)]
+
+
 PROPS = {
+    "C19": {
+        "runs": genesis_runs, "replay_runs": replay_runs, "monitor": mon_genesis.c19,
+        "diff_relevant": lambda d: d["mod"] == "genesis",
+        "trusted_base": BASE_TRUST + ["the table of record kinds each genesis carries (Canine/Genesis/Model.lean) is hand-written from x/*/genesis.go and compared with a real export/validate/import round trip of every module on every run"],
+        "assumptions": ["record kinds are identified by their store-key prefix", "oracle feeds are only populated when a history happens to create them (module covered by the same round trip)"],
+    },
     "C10": {
         "runs": ft_runs, "replay_runs": replay_runs, "monitor": mon_filetree.c10,
         "diff_relevant": lambda d: d["mod"] == "filetree",
@@ -64,7 +78,7 @@ PROPS = {
         "assumptions": ["domain: '/'-free segments, last segment non-empty (or the single empty segment); parent strings not ending in '/'", "distinctness is stated in collision-extraction form (no injectivity of SHA-256 is assumed)"],
     },
     "C13": {
-        "runs": mint_runs, "replay_runs": replay_runs, "monitor": mon_mint.c13,
+        "runs": mint_runs, "replay_runs": replay_runs, "monitor": mon_mint.c13, "panic_relevant": True,
         "diff_relevant": lambda d: d["mod"] == "mint",
         "trusted_base": BASE_TRUST + ["sdk.Dec arithmetic re-modelled exactly (Canine/Basic/Dec.lean: chopPrecisionAndRound, truncated big.Int.Quo) and exercised by the correspondence",
                                       "distribution's BeginBlocker only moves fee_collector funds into the distribution module account (observed together as 'stakers')"],
